@@ -285,25 +285,6 @@ TaskAlive == S.pc \notin {"none", "done"}
 ReqObsA(kind, a, b, c, body, outcome) == <<Ev("req", kind, a, b, c, 0, 0)>> \o body \o <<Ev("reqret", kind, outcome, "", "", 0, 0)>>
 ReqObs(kind, body, outcome) == ReqObsA(kind, "", "", "", body, outcome)
 
-\* request_pause(defer) -> _request_pause_coro 836-854
-ReqPause(defer) ==
-  /\ AtPark /\ TaskAlive
-  /\ LET kind == IF defer THEN "defer" ELSE "pause" IN
-     IF S.st # "running" THEN
-        /\ obs' = ReqObs(kind, <<>>, "exc:TransitionError") /\ S' = S
-     ELSE IF defer THEN
-        /\ S' = [S EXCEPT !.deferred = TRUE] /\ obs' = ReqObs(kind, <<>>, "ok")
-     ELSE IF AllIntrOK(S) /\ S.hasTask THEN
-        /\ S' = [S EXCEPT !.deferred = FALSE, !.interrupted = TRUE, !.st = "pausing",
-                          !.runs = IntrBump(S.runs), !.cancel = TRUE]
-        /\ obs' = ReqObs(kind, <<EvState("running", "pausing")>> \o IntrEvents(OpenKeys, S.runs), "ok")
-     ELSE
-        \* record_interruption raises KeyError (counter removed by a rewind) or _task is None:
-        \* the state is already 'pausing' but the task is never cancelled
-        /\ S' = [S EXCEPT !.deferred = FALSE, !.interrupted = TRUE, !.st = "pausing"]
-        /\ obs' = ReqObs(kind, <<EvState("running", "pausing")>>,
-                         IF AllIntrOK(S) THEN "exc:Err:AttributeError" ELSE "exc:Err:KeyError")
-
 \* request_suspend -> _request_suspend 1225-1251 (its own task on the loop; its errors are swallowed there)
 StartSuspMsg(f, pre, post) == [Msg("_start_suspender", "", "", f) EXCEPT !.pre = pre, !.post = post]
 \* the effect of _request_suspend on state s: [s |-> new state, ev |-> state events]
@@ -324,13 +305,46 @@ SuspendEffect(s, f, pre, post) ==
       s0 == [s EXCEPT !.interrupted = (@ \/ notRes), !.exc = IF notRes THEN "FailedPause" ELSE @,
                       !.st = st2, !.cancel = (@ \/ (s.hasTask /\ ((s1ok /\ ~wasPaused) \/ s2ok)))]
   IN [s |-> IF push THEN Push(s0, ListGen(<<StartSuspMsg(f, pre, post)>>), Val(None)) ELSE s0, ev |-> ev1 \o ev2]
+\* RE.request_suspend(...) from another thread: the call only SCHEDULES _request_suspend on the loop (susq); it lands later
+\* (SusLand) -- another request made right after it may be processed first; the harness reports it complete (SusRet) once
+\* everything scheduled has landed
 ReqSuspendA(f, pre, post, preId, postId) ==
   /\ AtPark /\ TaskAlive /\ f \in FutNames
-  /\ LET e == SuspendEffect(S, f, pre, post)
-     IN /\ S' = e.s
-        /\ obs' = ReqObsA("suspend", f, preId, postId, e.ev, "ok")
+  /\ S' = [S EXCEPT !.susq = Append(@, [f |-> f, pre |-> pre, post |-> post]), !.pendRet = Append(@, "suspend")]
+  /\ obs' = <<Ev("req", "suspend", f, preId, postId, 0, 0)>>
 
 ReqSuspend(f, pre, post) == ReqSuspendA(f, pre, post, "", "")
+
+\* suspension requests that are scheduled on the loop land before the coroutine of a later (blocking) request runs:
+\* callbacks are served in FIFO order
+RECURSIVE LandAll(_)
+LandAll(s) == IF s.susq = <<>> THEN [s |-> s, ev |-> <<>>]
+              ELSE LET q == Head(s.susq)
+                       e == SuspendEffect([s EXCEPT !.susq = Tail(@)], q.f, q.pre, q.post)
+                       r == LandAll(e.s)
+                   IN [s |-> r.s, ev |-> e.ev \o r.ev]
+
+\* request_pause(defer) -> _request_pause_coro 836-854
+ReqPause(defer) ==
+  /\ AtPark /\ TaskAlive
+  /\ LET kind == IF defer THEN "defer" ELSE "pause"
+         l == LandAll(S)
+         s == l.s
+     IN
+     IF s.st # "running" THEN
+        /\ obs' = ReqObs(kind, l.ev, "exc:TransitionError") /\ S' = s
+     ELSE IF defer THEN
+        /\ S' = [s EXCEPT !.deferred = TRUE] /\ obs' = ReqObs(kind, l.ev, "ok")
+     ELSE IF AllIntrOK(s) /\ s.hasTask THEN
+        /\ S' = [s EXCEPT !.deferred = FALSE, !.interrupted = TRUE, !.st = "pausing",
+                          !.runs = IntrBump(s.runs), !.cancel = TRUE]
+        /\ obs' = ReqObs(kind, l.ev \o <<EvState("running", "pausing")>> \o IntrEvents(OpenKeysOf(s.runs), s.runs), "ok")
+     ELSE
+        \* record_interruption raises KeyError (counter removed by a rewind) or _task is None:
+        \* the state is already 'pausing' but the task is never cancelled
+        /\ S' = [s EXCEPT !.deferred = FALSE, !.interrupted = TRUE, !.st = "pausing"]
+        /\ obs' = ReqObs(kind, l.ev \o <<EvState("running", "pausing")>>,
+                         IF AllIntrOK(s) THEN "exc:Err:AttributeError" ELSE "exc:Err:KeyError")
 
 \* the suspender's condition is released (asyncio.Event.set on the loop)
 Release(f) ==
@@ -349,7 +363,7 @@ SusCallback(s, x, v) ==
        IF u.ev # 0 THEN [s EXCEPT !.sus[x].tripped = TRUE]
        ELSE LET g == u.gen + 1
                 s1 == [s EXCEPT !.sus[x] = [u EXCEPT !.tripped = TRUE, !.ev = g, !.gen = g]]
-            IN IF s.st = "running" THEN [s1 EXCEPT !.susq = Append(@, SusFuts[x][g])] ELSE s1
+            IN IF s.st = "running" THEN [s1 EXCEPT !.susq = Append(@, [f |-> SusFuts[x][g], pre |-> <<>>, post |-> <<>>])] ELSE s1
   ELSE \* back to nominal: the event's set() is scheduled on the loop (sleep = 0), the suspender forgets the event
        [s EXCEPT !.sus[x] = [u EXCEPT !.tripped = FALSE, !.ev = 0],
                  !.relq = IF u.ev # 0 THEN @ \cup {SusFuts[x][u.ev]} ELSE @]
@@ -388,7 +402,8 @@ SusCb ==
 \* a scheduled request_suspend lands on the loop (1225-1251, as ReqSuspend)
 SusLand ==
   /\ S.susq # <<>> /\ AnyTime
-  /\ LET e == SuspendEffect([S EXCEPT !.susq = Tail(@)], Head(S.susq), <<>>, <<>>)
+  /\ LET q == Head(S.susq)
+         e == SuspendEffect([S EXCEPT !.susq = Tail(@)], q.f, q.pre, q.post)
      IN S' = e.s /\ obs' = e.ev
 \* the scheduled ev.set() runs on the loop (not logged: a silent step)
 SusRelease(f) ==
@@ -405,16 +420,19 @@ SusRet ==
 ReqTerminate(op) ==
   /\ AtPark /\ TaskAlive /\ op \in {"abort", "stop", "halt"}
   /\ S.st # "paused"          \* (from paused these are caller decisions: CallTerminate)
-  /\ IF S.st = "idle" THEN
-        /\ obs' = ReqObs(op, <<>>, "exc:TransitionError") /\ S' = S
-     ELSE IF TermState(op) \notin Table[S.st] THEN
-        \* flags are set before the checked setter raises
-        /\ S' = [S EXCEPT !.interrupted = TRUE, !.exitStatus = IF op = "abort" THEN "abort" ELSE @]
-        /\ obs' = ReqObs(op, <<>>, "exc:TransitionError")
+  /\ LET l == LandAll(S)
+         s == l.s
+     IN
+     IF s.st = "idle" THEN
+        /\ obs' = ReqObs(op, l.ev, "exc:TransitionError") /\ S' = s
+     ELSE IF TermState(op) \notin Table[s.st] THEN
+        \* the checked setter raises before anything else is touched: a rejected request has no effect
+        /\ S' = s
+        /\ obs' = ReqObs(op, l.ev, "exc:TransitionError")
      ELSE
-        /\ S' = [S EXCEPT !.interrupted = TRUE, !.exitStatus = IF op = "abort" THEN "abort" ELSE @,
-                          !.st = TermState(op), !.cancel = (@ \/ S.hasTask)]
-        /\ obs' = ReqObs(op, <<EvState(S.st, TermState(op))>>, IF S.hasTask THEN "ok" ELSE "exc:Err:AttributeError")
+        /\ S' = [s EXCEPT !.interrupted = TRUE, !.exitStatus = IF op = "abort" THEN "abort" ELSE @,
+                          !.st = TermState(op), !.cancel = (@ \/ s.hasTask)]
+        /\ obs' = ReqObs(op, l.ev \o <<EvState(s.st, TermState(op))>>, IF s.hasTask THEN "ok" ELSE "exc:Err:AttributeError")
 
 \* RE.abort()/stop()/halt() from another thread while the engine is paused and the main thread is inside resume() (the
 \* permit is set, the run task has not woken up yet): __interrupter_helper sees 'paused', runs the coroutine (exception
@@ -885,8 +903,11 @@ ClearMonsAll(ks, rs) ==
   ELSE LET k == CHOOSE x \in ks : \A y \in ks : rs[x].ord <= rs[y].ord
        IN DevOps(rs[k].mons, "clear_sub") \o ClearMonsAll(ks \ {k}, rs)
 \* generators still suspended on the stack are closed; the environment generator logs it
-CloseGens(gs) == IF \E i \in 1..Len(gs) : gs[i].k = "env" /\ ~gs[i].done /\ gs[i].pos > 0
-                 THEN <<EvGen("close", "", "closed")>> ELSE <<>>
+\* cr: how the plan reacts to close() -- "closed", or "raise:Err:RuntimeError" when it yields again from a finally block
+\* (the engine only prints a warning)
+CloseGens(gs, cr) == IF \E i \in 1..Len(gs) : gs[i].k = "env" /\ ~gs[i].done /\ gs[i].pos > 0
+                     THEN <<EvGen("close", "", cr)>> ELSE <<>>
+CloseReacts == {"closed", "raise:Err:RuntimeError"}
 \* the rest of the finally block once every moved motor has been stopped
 FinRest(s) ==
   LET canIdle == "idle" \in Table[s.st]
@@ -897,24 +918,24 @@ FinRest(s) ==
                !.st = IF canIdle THEN "idle" ELSE @,
                !.taskRes = res, !.pc = "done", !.blocking = TRUE, !.pend = <<>>, !.cont = "",
                !.gens = [i \in 1..Len(s.gens) |-> [s.gens[i] EXCEPT !.done = TRUE]]]
-FinRestObs(s) ==
+FinRestObs(s, cr) ==
   ClearMonsAll(OpenKeysOf(s.runs), s.runs) \o DevOps(s.staged, "unstage")
-  \o CloseAll(OpenKeysOf(s.runs), s.runs, s.exitStatus) \o CloseGens(s.gens)
+  \o CloseAll(OpenKeysOf(s.runs), s.runs, s.exitStatus) \o CloseGens(s.gens, cr)
   \o (IF "idle" \in Table[s.st] THEN <<EvState(s.st, "idle")>> ELSE <<>>)
-Finally ==
-  /\ S.pc = "fin"
+Finally(cr) ==
+  /\ S.pc = "fin" /\ cr \in CloseReacts
   /\ LET L == OpsL(S.moved \cap Motors, "stop") IN
      IF OpsParks(L) THEN
         \* `await self._stop_movable_objects()` really suspends inside the finally block
         /\ S' = [S EXCEPT !.pc = "aops", !.cont = "fin", !.pend = OpsLeft(L)]
         /\ obs' = EvOps(OpsDoneNow(L))
-     ELSE /\ S' = FinRest(S) /\ obs' = EvOps(L) \o FinRestObs(S)
+     ELSE /\ S' = FinRest(S) /\ obs' = EvOps(L) \o FinRestObs(S, cr)
 
 ----------------------------------------------------------------------------
 (* parked inside an awaiting device call (pc = "aops") *)
 \* the awaited call returns: the pending operations go on, up to the next awaiting one or to the end of the sequence
-AOpsStep ==
-  /\ S.pc = "aops" /\ ~S.cancel
+AOpsStep(cr) ==
+  /\ S.pc = "aops" /\ ~S.cancel /\ cr \in CloseReacts
   /\ LET L == S.pend IN
      IF OpsParks(L) THEN /\ S' = [S EXCEPT !.pend = OpsLeft(L)] /\ obs' = EvOps(OpsDoneNow(L))
      ELSE CASE S.cont = "pausing" ->
@@ -925,7 +946,7 @@ AOpsStep ==
                  ELSE /\ S' = ExitWith([S EXCEPT !.pend = <<>>, !.cont = ""], "TransitionError") /\ obs' = EvOps(L)
             [] S.cont = "susp" -> /\ S' = SuspRest([S EXCEPT !.pend = <<>>, !.cont = ""]) /\ obs' = EvOps(L)
             [] S.cont = "resume" -> /\ S' = Done([S EXCEPT !.pend = <<>>, !.cont = ""], Val(None)) /\ obs' = EvOps(L)
-            [] S.cont = "fin" -> /\ S' = FinRest(S) /\ obs' = EvOps(L) \o FinRestObs(S)
+            [] S.cont = "fin" -> /\ S' = FinRest(S) /\ obs' = EvOps(L) \o FinRestObs(S, cr)
 \* a cancellation is delivered inside the awaited device call
 AOpsCancel ==
   /\ S.pc = "aops" /\ S.cancel
